@@ -67,7 +67,7 @@ Definition site_table : list site := [
   mkSite "GetOpenIDConnectSession" [ETokenCode] (KeyComplete "authorization_code") NoForm;
   mkSite "DeleteOpenIDConnectSession" [ETokenCode] (KeyComplete "authorization_code") NoForm;
   mkSite "GetOpenIDConnectSession" [ETokenDevice] KeyOpaque NoForm;
-  mkSite "DeleteOpenIDConnectSession" [ETokenDevice] (KeyComplete "device_code") NoForm;
+  mkSite "DeleteOpenIDConnectSession" [ETokenDevice] KeyOpaque NoForm;
   plain "GetAuthorizeCodeSession"; plain "InvalidateAuthorizeCodeSession";
   plain "GetPKCERequestSession"; plain "DeletePKCERequestSession";
   plain "GetAccessTokenSession"; plain "DeleteAccessTokenSession";
